@@ -3,15 +3,16 @@
 of each is the exact type Coq prints for the lemma (so the pinned text is what the kernel checked), closed by `exact`.
 The import line is inserted after the file's existing imports; `Print Assumptions` lines are added at the end."""
 import subprocess, sys, re, os
+ROOT = os.environ.get("ADDPROPS_ROOT", "/verif")
 prop, imports = sys.argv[1], sys.argv[2]
 pairs = [a.split("=") for a in sys.argv[3:]]
-path = "/verif/coq/props/" + prop
+path = ROOT + "/coq/props/" + prop
 src = open(path).read()
 old_imports = "\n".join(l for l in src.split("\n") if l.startswith("From HC Require") or l.startswith("From Coq Require"))
 # same order as in the file: the new import comes first
 q = "%s\n%s\nSet Printing Width 110.\n" % (imports, old_imports) + "".join("Check %s.\n" % l for _, l in pairs)
 open("/tmp/addprops_q.v", "w").write(q)
-r = subprocess.run("cd /verif/coq && coqc -Q . HC /tmp/addprops_q.v", shell=True, capture_output=True, text=True)
+r = subprocess.run("cd %s/coq && coqc -Q . HC /tmp/addprops_q.v" % ROOT, shell=True, capture_output=True, text=True)
 assert r.returncode == 0, r.stdout + r.stderr
 blocks = re.split(r"\n(?=\S)", r.stdout.strip())
 types = {}
